@@ -89,21 +89,32 @@ mod verif_replay_namematch {
             );
             let fsm = crate::scxml_reader::parse_from_xml(doc).unwrap();
             let mut seen = 0;
+            let mut wildcards = 0;
             for t in fsm.transitions.values() {
                 if t.wildcard {
-                    assert!(t.nameMatch("anything"));
+                    wildcards += 1;
+                }
+                if t.events.is_empty() && !t.wildcard {
+                    // eventless (the transition generated for initial="s0")
+                    continue;
+                }
+                if t.events.is_empty() || t.events == vec!["*".to_string()] {
+                    // the `*` transition
+                    assert!(t.wildcard && t.nameMatch("anything"), "spelling {:?}: the '*' transition", spelling);
                     seen += 1;
-                } else if !t.events.is_empty() {
+                } else {
                     assert_eq!(t.events, vec!["e".to_string(), "other.x".to_string()], "spelling {:?}", spelling);
+                    assert!(!t.wildcard, "spelling {:?}: a descriptor with an insignificant '.*' suffix must not become the wildcard", spelling);
                     for n in ["e", "e.sub", "e.sub.sub", "other.x", "other.x.y"] {
                         assert!(t.nameMatch(n), "spelling {:?} must match {:?}", spelling, n);
                     }
-                    for n in ["ex", "e2.sub", "other", "other.xy", "E"] {
+                    for n in ["ex", "e2.sub", "other", "other.xy", "E", "anything", "done"] {
                         assert!(!t.nameMatch(n), "spelling {:?} must not match {:?}", spelling, n);
                     }
                     seen += 1;
                 }
             }
+            assert_eq!(wildcards, 1, "spelling {:?}: exactly the '*' transition is a wildcard", spelling);
             assert_eq!(seen, 2);
         }
     }
